@@ -3,6 +3,8 @@ package eng
 import (
 	"context"
 	"fmt"
+	"io"
+	"os"
 	"sort"
 	"strings"
 	"unicode/utf8"
@@ -63,7 +65,13 @@ BEGIN {
 		if (act == "closecmd") obs("close", close(cmdout))
 	}
 	if (userand) { obs("rand1", rand()); if (act == "srand") srand(42); obs("rand2", rand()) }
-	if (usematch) match("xxabcxx", /abc/)
+	if (usematch) {
+		match("xxabcxx", /abc/)
+		# values that depend on per-run configuration (Chars) or on per-interpreter caches
+		obs("fmt", sprintf("%c|%c|%5.2f|%d|%s", 321, "\303\251t\303\251", 3.14159, 42.9, "x"))
+		obs("len", length("\303\251t\303\251") ":" index("a\303\251b", "b") ":" substr("\303\251t\303\251", 2, 1))
+		obs("dynre", ("abc" ~ dyn) ":" gsub(dyn, "[&]", target) ":" target)
+	}
 	g1 = g1 "b"; garr["b" NR] = 1
 	if (act == "forin") { for (k in garr) { x = 1 / zero } }
 	if (usedeep) obs("deep", deep(depth, garr))
@@ -218,8 +226,21 @@ func c14Exec(it *interp.Interpreter, run *c14Run, log *core.Log) *c14Result {
 	stderr := core.NewSimSink("stderr", nil)
 	stats := &core.ReaderStats{}
 	stdin := core.NewSimReader("stdin", run.Stdin, run.StdinD, stats, log)
+	var stdinR io.Reader = stdin
+	if run.UseCmd {
+		// children started by cmd | getline and system() inherit Config.Stdin; with a reader
+		// that is not a file os/exec would copy it concurrently with the interpreter's reads.
+		// A real file makes the sharing what it is for a CLI user: one descriptor.
+		_ = fs.Put("!stdin", run.Stdin)
+		f, err := os.Open(fs.Path("!stdin"))
+		if err != nil {
+			core.Fatal("C14: stdin file: %v", err)
+		}
+		_ = os.Remove(fs.Path("!stdin"))
+		stdinR = f
+	}
 	cfg := &interp.Config{
-		Stdin: stdin, Output: stdout, Error: stderr, Funcs: c14funcs,
+		Stdin: stdinR, Output: stdout, Error: stderr, Funcs: c14funcs,
 		Args: run.Args, NoArgVars: run.NoArgVars,
 		NoExec: run.NoExec, NoFileWrites: run.NoFileWrites, NoFileReads: run.NoFileReads,
 		Chars: run.Chars, OpenFile: fs.Open, ShellCommand: []string{simshPath(), "-"},
@@ -256,7 +277,7 @@ func c14Exec(it *interp.Interpreter, run *c14Run, log *core.Log) *c14Result {
 		"act", run.Act, "probe", b2s(run.Probe), "probevars", b2s(run.ProbeVars), "defaults", b2s(run.Defaults),
 		"usefiles", b2s(run.UseFiles), "usestdin", b2s(run.UseStdin), "usecmd", b2s(run.UseCmd), "userand", b2s(run.UseRand),
 		"usematch", b2s(run.UseMatch), "usedeep", b2s(run.UseDeep), "usename", b2s(run.UseName), "userec", b2s(run.UseRec),
-		"depth", fmt.Sprint(run.Depth), "zero", "0",
+		"depth", fmt.Sprint(run.Depth), "zero", "0", "dyn", "b+", "target", "abbcb",
 		"cmdin", "ci;emit:from-child\n;exit:0", "cmdout", "co;save:" + fs.Path("cmdsaved") + ";exit:3",
 	}
 	cfg.Vars = append(cfg.Vars, run.ExtraVars...)
